@@ -476,11 +476,16 @@ def run(prop, tier, seed, layouts_json_path):
     except Exception as e:  # noqa: BLE001
         out.notes.append("model driver unavailable: %s" % e)
 
+    hangs = 0
     for i, (tag, data, wf) in enumerate(cases):
+        if hangs >= 3:
+            out.notes.append("stopped after 3 inputs that did not terminate within their deadline; %d cases not run" % (len(cases) - i))
+            break
         out.case(tag.split(":")[0], data, sample={"tag": tag, "len": len(data), "hex": data[:48].hex()})
         try:
             real_line, d, enc = with_deadline(20 + len(data) / 20000.0, real_rt, data)
-        except Hang:
+        except (Hang, MemoryError):
+            hangs += 1
             out.count("real:HANG")
             out.violations.append({"oracle": "decoding / re-encoding any byte string terminates", "tag": tag, "hex": data.hex() if len(data) < 100000 else None, "len": len(data), "got": "no result within the deadline"})
             continue
